@@ -99,7 +99,12 @@ def r75(ctx, prog):
             continue
         okv = ('proj', stage1, ('as Ok', '0'))
         errv = ('proj', stage1, ('as Err', '0'))
-        if ret[0] == 'app' and ret[1].split('::')[-1].split('#')[0] == 'partial_tokens_to_tokens' and len(ret[2]) == 1 and ret[2][0] == okv:
+        def bare(v):
+            # a borrowed view of the same vector: as_slice / deref / as_ref / borrow / `&v[..]`
+            while v[0] == 'app' and v[1].split('::')[-1].split('#')[0] in ('as_slice', 'deref', 'as_ref', 'borrow', 'as_mut_slice') and len(v[2]) == 1:
+                v = v[2][0]
+            return v
+        if ret[0] == 'app' and ret[1].split('::')[-1].split('#')[0] == 'partial_tokens_to_tokens' and len(ret[2]) == 1 and bare(ret[2][0]) == okv:
             n_ok += 1
         elif is_adt(ret, 'result::Result', 'Err') and (ret[4][0] == errv or (ret[4][0][0] == 'app' and ret[4][0][1].endswith('From>::from') and ret[4][0][2] == (errv,))):
             n_err += 1
